@@ -268,6 +268,8 @@ def configs(tier):
         esc(3, 2, 0, 1, 2, 1)
         esc(2, 2, 0, 1, 2, 1, automatic=True)
         esc(2, 2, 0, 1, 2, 1, single=True)
+        # single-dimension mode with TWO areas per round (a multi-dimensional split and an extend in the same round, either order)
+        esc(2, 2, 0, 1, 2, 2, single=True)
         esc(2, 2, 0, 1, 2, 1, a=[-1.0, 2.0], b=[3.0, 4.0])
         cellc(2, 1, 3, 1)
         cellc(2, 1, 2, 2)
@@ -313,6 +315,8 @@ def configs(tier):
                 esc(3, 2, version, nref, 2, 1)
             esc(2, 2, version, 1, 3, 1, automatic=True)
             esc(2, 2, version, 1, 3, 1, single=True)
+            esc(2, 2, version, 1, 2, 2, single=True)
+            esc(2, 2, version, 2, 2, 2, single=True)
             esc(2, 2, version, 1, 2, 1, automatic=True, single=True)
             esc(2, 2, version, 1, 3, 1, a=[-1.0, 2.0], b=[3.0, 4.0])
         cellc(2, 1, 3, 2)
